@@ -207,7 +207,7 @@ def gen_accept(rng):
     if rng.random() < 0.6:
         line += ";mime=" + rng.choice(["text/plain", "text/gemini", "application/octet-stream", "image/png"])
     if rng.random() < 0.5:
-        line += ";token=" + rng.choice(["abc", "s3cr3t", "a-b_c.d~e", "x%20y"])
+        line += ";token=" + rng.choice(["abc", "s3cr3t", "a-b_c.d~e", "x%20y", "c2VjcmV0cw==", "a=b", "k=v=w", "dG9rZW4="])
     return line.encode() + b"\r\n" + bytesgen.content_bytes(rng, size), "gen-titan"
 
 
